@@ -38,6 +38,11 @@ var c1witnesses = []c1witness{
 		"k1: _\n#A: {if k1 {}}\ny: {a: _}\ny: #A\nz: y.a\n", "k1: _\nz: y.a\ny: #A\n#A: {if k1 {}}\ny: {a: _}\n"},
 	{"top-unified-with-struct-holding-failing-comprehension",
 		"x: {if false {}}\n", "x: _ & {if false {}}\n"},
+	// finding 5 with the erroneous field made erroneous by a comprehension-delivered pattern
+	// (seen by the tester of seeded C01-c on the unchanged tree; erroneous in BOTH orders, so
+	// outside the late-constraints stream whose holders are error-free)
+	{"error-placement-through-reference",
+		"s: {a: 1, if true {[string]: >5}}\nout: s.a + 1\n", "out: s.a + 1\ns: {a: 1, if true {[string]: >5}}\n"},
 	{"top-unified-with-struct-holding-failing-comprehension",
 		"k1: 1\n#A: {a?: _, if k1 > 2 {a: _}}\n", "k1: 1\n#A: {a?: _, if k1 > 2 {a: _}}\n#A: _\n"},
 	{"missing-field-reference-fatal-vs-incomplete",
